@@ -675,6 +675,14 @@ class FnEmit:
             # lengths go through explicit element loops (rt/model_core.c), typed after the bitcast origin.
             kind = name.split('.')[1]
             const_len = re.fullmatch(r'\(\(uint64_t\)\d+ULL\)', a[2]) is not None
+            if const_len and kind in ('memcpy', 'memmove') and int(re.search(r'(\d+)ULL', a[2]).group(1)) <= 8 and kind == 'memcpy':
+                # short constant-length byte copies (e.g. the 3-byte U+FFFD substitute at a symbolic cursor): explicit byte assignments; CBMC's
+                # built-in memcpy at a symbolic offset ran the propositional reduction out of memory (measured: cleanup_utf8, 2 input bytes, > 6 GB)
+                ln = int(re.search(r'(\d+)ULL', a[2]).group(1))
+                s.emit('VP_ACCESS(%s, %s); VP_ACCESS(%s, %s);' % (a[0], a[2], a[1], a[2]))
+                s.emit('{ uint8_t *d_ = (uint8_t *)%s; const uint8_t *s_ = (const uint8_t *)%s; uint8_t t_[%d]; %s %s }' % (
+                    a[0], a[1], max(ln, 1), ' '.join('t_[%d] = s_[%d];' % (i, i) for i in range(ln)), ' '.join('d_[%d] = t_[%d];' % (i, i) for i in range(ln))))
+                return None
             if const_len:
                 s.emit('VP_ACCESS(%s, %s);' % (a[0], a[2]))
                 if kind != 'memset': s.emit('VP_ACCESS(%s, %s);' % (a[1], a[2]))
